@@ -2,6 +2,7 @@ package main
 
 import (
 	"fmt"
+	"go/constant"
 	"go/token"
 	"go/types"
 	"sort"
@@ -39,7 +40,18 @@ func Reach(fn *ssa.Function, from ssa.Instruction, want, stop func(ssa.Instructi
 }
 
 // ReachE is Reach with an edge filter: edges for which edgeOK returns false are not followed.
+// The search is sensitive to boolean phis of constants: when a block ends in `if phi` and phi (defined in the same
+// block) has a constant edge for the predecessor the path came from, only the matching successor is followed.
 func ReachE(fn *ssa.Function, from ssa.Instruction, want, stop func(ssa.Instruction) bool, edgeOK func(b *ssa.BasicBlock, succ int) bool) (ssa.Instruction, []*ssa.BasicBlock) {
+	return reachImpl(fn, from, nil, want, stop, edgeOK)
+}
+
+// ReachBlock starts the search at the first instruction of block start.
+func ReachBlock(start *ssa.BasicBlock, want, stop func(ssa.Instruction) bool, edgeOK func(b *ssa.BasicBlock, succ int) bool) (ssa.Instruction, []*ssa.BasicBlock) {
+	return reachImpl(start.Parent(), nil, start, want, stop, edgeOK)
+}
+
+func reachImpl(fn *ssa.Function, from ssa.Instruction, startBlock *ssa.BasicBlock, want, stop func(ssa.Instruction) bool, edgeOK func(b *ssa.BasicBlock, succ int) bool) (ssa.Instruction, []*ssa.BasicBlock) {
 	if fn == nil || len(fn.Blocks) == 0 {
 		return nil, nil
 	}
@@ -48,11 +60,14 @@ func ReachE(fn *ssa.Function, from ssa.Instruction, want, stop func(ssa.Instruct
 		idx  int
 		prev *item
 	}
-	visited := map[*ssa.BasicBlock]bool{}
+	type vkey struct{ b, from *ssa.BasicBlock }
+	visited := map[vkey]bool{}
 	var queue []*item
-	if from == nil {
+	if startBlock != nil {
+		queue = append(queue, &item{startBlock, 0, nil})
+	} else if from == nil {
 		queue = append(queue, &item{fn.Blocks[0], 0, nil})
-		visited[fn.Blocks[0]] = true
+		visited[vkey{fn.Blocks[0], nil}] = true
 	} else {
 		queue = append(queue, &item{from.Block(), instrIndex(from) + 1, nil})
 	}
@@ -77,17 +92,66 @@ func ReachE(fn *ssa.Function, from ssa.Instruction, want, stop func(ssa.Instruct
 		if blocked {
 			continue
 		}
+		forced := -1
+		if it.prev != nil && it.idx == 0 && len(it.b.Instrs) > 0 {
+			if iff, ok := it.b.Instrs[len(it.b.Instrs)-1].(*ssa.If); ok {
+				forced = phiForcedSucc(iff.Cond, it.b, it.prev.b)
+			}
+		}
 		for si, s := range it.b.Succs {
+			if forced >= 0 && si != forced {
+				continue
+			}
 			if edgeOK != nil && !edgeOK(it.b, si) {
 				continue
 			}
-			if !visited[s] {
-				visited[s] = true
+			k := vkey{s, it.b}
+			if !visited[k] {
+				visited[k] = true
 				queue = append(queue, &item{s, 0, it})
 			}
 		}
 	}
 	return nil, nil
+}
+
+// phiForcedSucc: cond is a phi (or its negation) defined in block b with a constant bool on the edge from pred:
+// returns the successor index that must be taken, or -1.
+func phiForcedSucc(cond ssa.Value, b, pred *ssa.BasicBlock) int {
+	neg := false
+	for {
+		u, ok := cond.(*ssa.UnOp)
+		if !ok || u.Op != token.NOT {
+			break
+		}
+		neg = !neg
+		cond = u.X
+	}
+	phi, ok := cond.(*ssa.Phi)
+	if !ok || phi.Block() != b {
+		return -1
+	}
+	for i, p := range b.Preds {
+		if p != pred {
+			continue
+		}
+		k, ok := phi.Edges[i].(*ssa.Const)
+		if !ok || k.Value == nil {
+			return -1
+		}
+		if k.Value.Kind() != constant.Bool {
+			return -1
+		}
+		v := constant.BoolVal(k.Value)
+		if neg {
+			v = !v
+		}
+		if v {
+			return 0
+		}
+		return 1
+	}
+	return -1
 }
 
 // PruneFactEdges returns an edge filter that refuses the edges on which fact holds.
